@@ -5,7 +5,7 @@
 From Coq Require Import List Arith Bool ZArith QArith Reals.
 From P Require Import Geom Comb Cross Tiling Centroid.
 From Gen Require Import GenRefine GenArea GenPos GenDecomp GenGood.
-From P Require Import Model Volume Conform Main Decomp73 Layouts MainTiling.
+From P Require Import Model Volume MeshVolume Conform Main Decomp73 Layouts MainTiling.
 Import ListNotations.
 Open Scope nat_scope.
 
@@ -263,3 +263,30 @@ Theorem children_volume_conserved :
   oeq (osum (map (fun a => column_volume T ths a s) areas)) v.
 Proof. exact children_volume_conserved_. Qed.
 Print Assumptions children_volume_conserved.
+
+(** ** total rock volume of the whole geometry (sum of block_volume over all blocks of all columns;
+    a geometry = top T, layer thicknesses, columns as (plan area, surface) pairs), over Q.
+    [oeq o v]: the sum is defined and equals v.
+    refine_layers with any layer selection and factor >= 1 leaves it unchanged; *)
+Theorem refine_layers_total_volume :
+  forall T ths sel factor (cols : list (Q * Q)) v, all_pos ths -> (0 < factor)%nat ->
+  oeq (mesh_volume T ths cols) v -> oeq (mesh_volume T (refine_ths factor sel ths) cols) v.
+Proof. exact refine_layers_mesh_volume_. Qed.
+Print Assumptions refine_layers_total_volume.
+(** so does replacing a column (A, s) anywhere in the geometry by any number of new columns that
+    inherit s and whose areas add up to A (what the area theorems and surface_inherited give for
+    refine / split_column / triangulate_column / decompose_column); *)
+Theorem column_operation_total_volume :
+  forall T ths (l1 : list (Q * Q)) A s l2 areas v, all_pos ths -> (qsum areas == A)%Q ->
+  oeq (mesh_volume T ths (l1 ++ (A, s) :: l2)) v -> oeq (mesh_volume T ths (replace_column l1 areas s l2)) v.
+Proof. exact replace_column_mesh_volume_. Qed.
+Print Assumptions column_operation_total_volume.
+(** and so does every finite sequence of such steps in any order (the total volume is defined
+    before and after: no block_surface None) *)
+Theorem operation_sequences_total_volume :
+  forall (T : Q) (g g' : geometry), vsteps g g' -> all_pos (fst g) ->
+  all_pos (fst g') /\
+  (exists v, mesh_volume T (fst g) (snd g) = Some v) /\
+  forall v, oeq (mesh_volume T (fst g) (snd g)) v -> oeq (mesh_volume T (fst g') (snd g')) v.
+Proof. exact vsteps_mesh_volume_. Qed.
+Print Assumptions operation_sequences_total_volume.
